@@ -53,7 +53,7 @@ func ObjName(o int) string {
 // Gate is one blocked call into a simulated object.
 type Gate struct {
 	Obj, Kind, Seq int
-	ch            chan struct{}
+	ch             chan struct{}
 }
 
 func (g *Gate) String() string {
@@ -486,13 +486,13 @@ func (f *SimFile) Name() string {
 
 // Snapshot is a consistent copy of the counters.
 type FileStats struct {
-	Reads, ReadCalls, Closes, CloseCalls, NameCalls  int
-	ReadAfterClose, ReadAfterEOF, ReadAfterErr       int
-	Delivered, ZeroReads, EOFWithData, ShortReads    int
-	ErrDelivered                                     bool
-	ErrDeliveredAt                                   int
-	ChunkEnds, ReadsAt                               []int
-	Remaining                                        int
+	Reads, ReadCalls, Closes, CloseCalls, NameCalls int
+	ReadAfterClose, ReadAfterEOF, ReadAfterErr      int
+	Delivered, ZeroReads, EOFWithData, ShortReads   int
+	ErrDelivered                                    bool
+	ErrDeliveredAt                                  int
+	ChunkEnds, ReadsAt                              []int
+	Remaining                                       int
 }
 
 func (f *SimFile) Stats() FileStats {
